@@ -96,6 +96,9 @@ def check(case):
             kind = "raises-vs-returns"
         if tool == "sum" and kind == "wrong-result" and case.get("profile") == "inexact":
             kind = "inexact-float-sum-differs"
+        if kind == "wrong-result" and _sized_selection_of_unequal_ties(case):
+            # (one bucket for both directions: the finding is the missing shortcut, not the tool)
+            raise Violation("C02/heap-selection/sized-input-unequal-ties-order-differs", f"async={x} stdlib={y}")
         raise Violation(f"C02/{tool}/{kind}", f"async={x} stdlib={y}")
     shut = generators_closed_by_tool(ba)
     if shut:
@@ -128,9 +131,22 @@ def check(case):
                 raise Violation(f"C02/{tool}/key-applied-to-default", "")
 
 
+def _sized_selection_of_unequal_ties(case):
+    """nlargest / nsmallest of a SIZED argument with n >= len(argument), items that tie under ``<`` without being
+    ``==`` (profile 'ltpure'): heapq answers sorted(argument)[:n] there, which keeps such ties in input order; the
+    library always runs its heap, whose tie-break (a tuple comparison) needs ``==`` of the keys"""
+    if case["tool"] not in ("nlargest", "nsmallest") or case.get("profile") != "ltpure" or not case["srcs"]:
+        return False
+    src = case["srcs"][0]
+    sized = src.get("fl") in ("tuple", "tuplesub", "ringlist") or (src.get("fl") == "list" and src.get("mutable"))
+    keys = [it[1] for it in src["items"] if it[0] == "LP"]
+    return bool(sized and case["params"]["n"] >= len(src["items"]) and len(keys) != len(set(keys)))
+
+
 # known findings that are excluded by construction once reported (see known_findings.json)
 EXCLUSIONS = {
     "sum-float-compensation": lambda case: case["tool"] == "sum" and case.get("profile") == "inexact",
+    "heap-selection-sized-shortcut": _sized_selection_of_unequal_ties,
 }
 
 
